@@ -36,3 +36,54 @@ def run_reader(lines, marks=("!", ">", "*", "|"), fixed=False, length_limit=True
             pass
         if workdir is None:
             os.rmdir(d)
+
+
+def parse_fields(text, lower=False, fname="lit.f90", workdir=None):
+    """Parse free-form source text with FortranSourceFile under ProjectSettings(lower=...) and return the texts
+    of the parsed entities that can carry character literals:
+      ("ok", {"names": [entity names as FORD reports them],
+              ("var", name.lower()): {"initial", "strlen", "kind", "attribs"},
+              ("param", name.lower()): value, ("proc", name.lower()): bindC})   |   ("err", exception name)
+    (NBSP, which FORD puts into initial values, is read as a blank.)"""
+    import contextlib
+    import io
+    import ford.sourceform as sf
+    from ford.settings import ProjectSettings
+    d = workdir or tempfile.mkdtemp(prefix="verif_p_")
+    p = os.path.join(d, fname)
+    with open(p, "w", newline="\n") as f:
+        f.write(text)
+    sf.namelist = sf.NameSelector()
+    buf = io.StringIO()
+
+    def clean(v):
+        return v.replace("\xa0", " ") if isinstance(v, str) else v
+
+    try:
+        try:
+            with contextlib.redirect_stdout(buf), contextlib.redirect_stderr(buf):
+                fsf = sf.FortranSourceFile(p, ProjectSettings(preprocess=False, dbg=False, lower=lower))
+        except BaseException as e:  # noqa
+            if isinstance(e, (KeyboardInterrupt, SystemExit)):
+                raise
+            return ("err", type(e).__name__)
+        out = {"names": []}
+        for m in fsf.modules:
+            out["names"].append(m.name)
+            for v in m.variables:
+                out["names"].append(v.name)
+                out[("var", v.name.lower())] = {"initial": clean(v.initial), "strlen": clean(getattr(v, "strlen", None)),
+                                                 "kind": clean(v.kind), "attribs": [clean(a) for a in v.attribs]}
+            for k, val in getattr(m, "param_dict", {}).items():
+                out[("param", k.lower())] = clean(val)
+            for s in list(m.subroutines) + list(m.functions):
+                out["names"].append(s.name)
+                out[("proc", s.name.lower())] = clean(s.bindC)
+        return ("ok", out)
+    finally:
+        try:
+            os.remove(p)
+        except OSError:
+            pass
+        if workdir is None:
+            os.rmdir(d)
